@@ -122,9 +122,35 @@ def find_loop_spec(I, frame, ordinal):
     top = I.ctx.top_contract
     if top is not None and fi is not None and fi.key == (top.body_key or top.key) and I.ctx.depth <= 1:
         con = top
+    if con is None and top is not None and fi is not None and I.ctx.depth == 2 and top.loops:
+        # a loop in an uncontracted helper that the function under contract calls directly (e.g. after "extract method"): the contract's
+        # loop specifications that cannot belong to a loop of the function's own body (it has fewer loops than the contract names) are
+        # TRIED on the helper's loops, in order.  Sound either way - an invariant is proved or it is not, wherever it came from - but what
+        # fails on such a path is "this contract does not cover this code" (undecided), never a violation.
+        body_fi = I.repo.get(top.body_key or top.key)
+        own = _count_loops(body_fi.node) if body_fi is not None and hasattr(body_fi, "node") else None
+        if own is not None:
+            spare = [o for o in sorted(top.loops) if o >= own]
+            if ordinal < len(spare):
+                I.ctx.ghost["transplanted"] = "loop specification %d of %s tried on loop %d of its helper %s" % (spare[ordinal], top.key, ordinal, fi.key)
+                return top.loops[spare[ordinal]]
     if con is None or ordinal not in con.loops:
         return None
     return con.loops[ordinal]
+
+
+def _count_loops(fn_node):
+    """for/while statements of a function body, not counting nested function definitions"""
+    n = 0
+    todo = list(getattr(fn_node, "body", []))
+    while todo:
+        x = todo.pop()
+        if isinstance(x, (ast.FunctionDef, ast.AsyncFunctionDef, ast.ClassDef, ast.Lambda)):
+            continue
+        if isinstance(x, (ast.For, ast.AsyncFor, ast.While)):
+            n += 1
+        todo.extend(ast.iter_child_nodes(x))
+    return n
 
 
 def assigned_names(stmts, target=None):
@@ -179,10 +205,30 @@ def eval_inv(I, loop, entry_heap, frame, i, seq, tr_entry, mode="assume"):
     L = Locals(spec, frame, spec.new_heap)
     r = loop.inv(spec, L, i)
     if isinstance(r, dict):
-        return {k: _b(v) for k, v in r.items()}
-    if isinstance(r, (list, tuple)):
-        return {str(k): _b(v) for k, v in enumerate(r)}
-    return {"0": _b(r)}
+        out = {k: _b(v) for k, v in r.items()}
+    elif isinstance(r, (list, tuple)):
+        out = {str(k): _b(v) for k, v in enumerate(r)}
+    else:
+        out = {"0": _b(r)}
+    if mode == "prove":
+        # the shapes the loop specification declares for loop-carried locals are ASSUMED at the head of the generic iteration, so they
+        # are PROVED where the invariant is: on entry and at the end of an iteration
+        for nm, ty in loop.local_types.items():
+            if nm in missing:
+                continue
+            v = frame.locals[nm]
+            ty = ctx.resolve_ty(ty)
+            if ty is None or isinstance(ty, TAny):
+                continue
+            try:
+                sv = v if isinstance(v, SV) else ctx.to_val(v)
+                f = ty.inv(sv.t, goal=True)
+                if isinstance(v, (VDict, VList, VTuple, VSet)) and not isinstance(ty, (TAny,)):
+                    f = z3.BoolVal(False)          # a display where the specification speaks of a heap value of a declared shape
+            except Unsupported:
+                f = z3.BoolVal(False)
+            out["local %s has the shape the loop specification declares (%s)" % (nm, ty.describe())] = _b(f)
+    return out
 
 
 def havoc_loop(I, loop, frame, names, entry_heap, seq):
@@ -190,14 +236,16 @@ def havoc_loop(I, loop, frame, names, entry_heap, seq):
     for nm in names:
         if nm in frame.locals:
             cur = frame.locals[nm]
-            ty = loop.local_types.get(nm) or (cur.ty if isinstance(cur, SV) else None)
-            if ty is None and not isinstance(cur, SV):
-                cur_sv = None
-                try:
-                    cur_sv = ctx.to_val(cur)
-                    ty = cur_sv.ty
-                except Unsupported:
-                    raise Unsupported("loop modifies local %s holding an engine-level value" % nm)
+            ty = loop.local_types.get(nm)
+            if ty is None:
+                # a local the body assigns and the loop specification says nothing about: at the head of an arbitrary iteration it holds an
+                # ARBITRARY value (assuming the shape of its initial value - None, say - for every iteration would be unsound)
+                if not isinstance(cur, SV):
+                    try:
+                        ctx.to_val(cur)
+                    except Unsupported:
+                        raise Unsupported("loop modifies local %s holding an engine-level value" % nm)
+                ty = ANY
             t = fresh_val("l_" + nm)
             frame.locals[nm] = ctx.typed(t, ty)
         elif nm in loop.local_types:
